@@ -548,6 +548,13 @@ def convert_to_folded_model(model):
   for node_id in bn_nodes_to_delete:
     qgraph.GraphRemoveNode(graph, node_id)
 
+  # The graph does not keep the order of a layer's inputs (its edges are
+  # created while iterating over a set of tensors). Remember which original
+  # tensor every edge carries so that multi-input layers can be called with
+  # their inputs in the original order.
+  for _, _, edge in graph.edges(data=True):
+    edge["original_tensor"] = edge["tensor"]
+
   # Modifies model according to the graph.
   model_outputs = []
   x = model_inputs = fold_model.inputs
@@ -558,9 +565,15 @@ def convert_to_folded_model(model):
 
     layer = node["layer"][0]
     if layer:
-      # Gets layer input tensors from graph edge.
-      for parent_node_id in graph.predecessors(node_id):
-        edge = graph.edges[(parent_node_id, node_id)]
+      # Gets layer input tensors from graph edge, in the order of the layer's
+      # own inputs.
+      original_inputs = [t.ref() for t in tf.nest.flatten(layer.input)]
+      parent_edges = [graph.edges[(parent_node_id, node_id)]
+                      for parent_node_id in graph.predecessors(node_id)]
+      if all(e["original_tensor"] in original_inputs for e in parent_edges):
+        parent_edges.sort(
+            key=lambda e: original_inputs.index(e["original_tensor"]))
+      for edge in parent_edges:
         input_tensor = edge["tensor"]
         layer_input_tensors.append(input_tensor)
 
